@@ -10,7 +10,7 @@ namespace vf {
 struct MN {
     int kind = cJSON_NULL; bool ref = false, ckey = false, haskey = false;
     std::string key; const char* ckeyptr = nullptr;
-    double num = 0; int vint = 0; std::string str;
+    double num = 0; int vint = 0; std::string str; size_t cap = 0;   // cap: known size (without terminator) of the owned string buffer, 0 = unknown
     std::vector<MN*> kids; MN* parent = nullptr; cJSON* real = nullptr;
     MN* btarget = nullptr;    // reference node: the node it borrows from
     bool chainref = false;    // Create{Array,Object}Reference(x): borrows the sibling chain starting at btarget
